@@ -83,6 +83,7 @@ type uw struct {
 	status int
 	info   []int
 	body   []byte
+	flushes int
 }
 
 func newUW() *uw { return &uw{hdr: http.Header{}} }
@@ -106,6 +107,34 @@ func (u *uw) Write(b []byte) (int, error) {
 	u.body = append(u.body, b...)
 	return len(b), nil
 }
+func (u *uw) flush() {
+	if !u.wrote {
+		u.WriteHeader(200) // net/http sends the pending header when flushing
+	}
+	u.flushes++
+}
+
+// uwF offers http.Flusher only, uwFE offers FlushError() error (what a real net/http connection has)
+type uwF struct{ *uw }
+
+func (u uwF) Flush() { u.flush() }
+
+type uwFE struct{ *uw }
+
+func (u uwFE) FlushError() error { u.flush(); return nil }
+
+var flushKinds = []string{"FNone", "FFlusher", "FFlushError"}
+
+func (u *uw) as(kind int) http.ResponseWriter {
+	switch kind {
+	case 1:
+		return uwF{u}
+	case 2:
+		return uwFE{u}
+	}
+	return u
+}
+
 func (u *uw) digest() string {
 	ks := make([]string, 0, len(u.hdr))
 	for k := range u.hdr {
@@ -116,7 +145,7 @@ func (u *uw) digest() string {
 	for _, k := range ks {
 		fmt.Fprintf(&sb, "%q=%q;", k, u.hdr[k])
 	}
-	return fmt.Sprintf("wrote=%v status=%d info=%v hdr={%s} body=%q", u.wrote, u.status, u.info, sb.String(), u.body)
+	return fmt.Sprintf("wrote=%v status=%d info=%v hdr={%s} body=%q flushes=%d", u.wrote, u.status, u.info, sb.String(), u.body, u.flushes)
 }
 
 // ---------- panic values ----------
@@ -293,15 +322,23 @@ type act struct {
 	header bool
 	code   int
 	body   string
+	flush  bool
+	fkind  int // filled when served: what the underlying writer offers
 }
 
 func (a act) coq() string {
+	if a.flush {
+		return "AFlush " + flushKinds[a.fkind]
+	}
 	if a.header {
 		return "AWriteHeader " + hx.Z(int64(a.code))
 	}
 	return "AWrite " + cb(a.body)
 }
 func (a act) String() string {
+	if a.flush {
+		return "Flush[underlying:" + flushKinds[a.fkind] + "]"
+	}
 	if a.header {
 		return fmt.Sprintf("WriteHeader(%d)", a.code)
 	}
@@ -350,7 +387,13 @@ func (p *plan) raise() {
 
 func runActs(c fox.Context, acts []act) {
 	for i, a := range acts {
-		if a.header {
+		if a.flush {
+			if i%2 == 0 {
+				_ = c.Writer().FlushError()
+			} else {
+				_ = http.NewResponseController(c.Writer()).Flush()
+			}
+		} else if a.header {
 			c.Writer().WriteHeader(a.code)
 		} else if i%2 == 0 {
 			_, _ = c.Writer().Write([]byte(a.body))
@@ -452,7 +495,7 @@ func build(w *world, special bool) *fox.Router {
 func routesOf(f *fox.Router) string {
 	var l []string
 	for m, r := range f.Iter().All() {
-		l = append(l, m+" "+r.Pattern())
+		l = append(l, fmt.Sprintf("%s %s has=%v", m, r.Pattern(), f.Has(m, r.Pattern())))
 	}
 	sort.Strings(l)
 	return strings.Join(l, "|")
@@ -600,6 +643,16 @@ func genHeaders(r *hx.Rand, st *hx.Stats) hdrs {
 // ---------- one panic case ----------
 
 func genActs(r *hx.Rand) ([]act, string) {
+	if r.Pct(22) {
+		switch r.Intn(4) {
+		case 0, 1:
+			return []act{{flush: true}}, "flush-only"
+		case 2:
+			return []act{{header: true, code: 103}, {flush: true}}, "flush-only"
+		default:
+			return []act{{flush: true}, {body: "after flush"}, {flush: true}}, "flush-then-body"
+		}
+	}
 	switch r.Intn(7) {
 	case 0, 1:
 		return nil, "nothing"
@@ -664,7 +717,7 @@ func main() {
 			"Definition viol := Eval vm_compute in spec_violations cases.\nPrint viol.\n" +
 			"Definition oof := Eval vm_compute in fuel_outs cases.\nPrint oof.\n",
 	}
-	st := &hx.Stats{Rule: "panic cases: every curated panic value (27: errors, wrapped/joined errors, string, panic(nil), custom struct/pointer, int, runtime error, ErrAbortHandler plain/wrapped/joined/inside OpError, net.OpError over os.SyscallError with EPIPE/ECONNRESET/other errno, without SyscallError, wrapped from outside, nested, upper-case text) x every request kind (5 route shapes incl. catch-all, two params, ignore-trailing-slash; 404; 405; OPTIONS; redirect GET/POST) x panic site (handler, inner middleware before/after next, handler inside Updates/View) with a seeded random response progress (nothing, header only, partial body, informational only) and seeded random request headers (1-4 credential names in canonical/lower/upper/as-written/mixed capitalisation set directly in the map, 0-3 look-alike ordinary names, sometimes an invalid name), plus seeded random error trees (depth <= 3) and no-panic controls; every case is followed by a control request, a Handle+Delete and a route listing. txn cases: Updates/View with every operation list over {Handle,Delete,Has} x {/a,/b,/c} up to a length bound, ending by panic/error/nil, from 3 initial route sets; write helper Handle with a panicking middleware. non-trivial = the case panics (panic cases) or performs at least one operation or ends abnormally (txn cases); distinct = distinct Coq case terms"}
+	st := &hx.Stats{Rule: "panic cases: every curated panic value (27: errors, wrapped/joined errors, string, panic(nil), custom struct/pointer, int, runtime error, ErrAbortHandler plain/wrapped/joined/inside OpError, net.OpError over os.SyscallError with EPIPE/ECONNRESET/other errno, without SyscallError, wrapped from outside, nested, upper-case text) x every request kind (5 route shapes incl. catch-all, two params, ignore-trailing-slash; 404; 405; OPTIONS; redirect GET/POST) x panic site (handler, inner middleware before/after next, handler inside Updates/View) with a seeded random response progress (nothing, header only, partial body, informational only, started ONLY by a flush — FlushError / ResponseController.Flush — on an underlying writer that offers nothing / http.Flusher / FlushError() error; flush-only x every curated value x each of the three writers is enumerated) and seeded random request headers (1-4 credential names in canonical/lower/upper/as-written/mixed capitalisation set directly in the map, 0-3 look-alike ordinary names, sometimes an invalid name), plus seeded random error trees (depth <= 3) and no-panic controls; every case is followed by a control request, a Handle+Delete and a route listing. txn cases: Updates, unmanaged Txn(true) (panic under a deferred Abort / explicit Abort / Commit) and View over routes of common (GET, POST, DELETE) and non-common (TRACE, custom PURGE) verbs; operation alphabet = Handle/Update/Delete of 5 routes, Has, and Truncate with 12 method lists (none, single common, single non-common, common-before-non-common, non-common-before-common, absent verb); every single operation x every ending x every initial set, every ordered pair (quick: seeded kind/ending/initial per pair, Truncate pairs always), random longer lists; afterwards the live route set is read three ways (Iter().All, Has, one request per route whose body tells the handler version) and compared with the model and, for every non-committed ending, with the initial set; write helper Handle with a panicking middleware. non-trivial = the case panics (panic cases) or performs at least one operation or ends abnormally (txn cases); distinct = distinct Coq case terms"}
 	seen := map[string]bool{}
 	nontrivial := 0
 	var pending []tcase
@@ -685,6 +738,7 @@ func main() {
 	routers := [2]*fox.Router{build(w[0], false), build(w[1], true)}
 	rebuild := func(i int) { w[i] = &world{}; routers[i] = build(w[i], i == 1) }
 
+	fkForce := -1
 	onePanic := func(special int, rq reqSpec, where int, acts []act, progress string, val *pv, hd hdrs) {
 		f, wd := routers[special], w[special]
 		foxHandler := rq.scope == "RedirectHandler" || (rq.fox && special == 0)
@@ -706,6 +760,15 @@ func main() {
 		dump, _ := httputil.DumpRequest(req, false)
 		before := routesOf(f)
 		u := newUW()
+		fk := rnd.Intn(3)
+		if fkForce >= 0 {
+			fk = fkForce
+		}
+		acts = append([]act{}, acts...)
+		for i := range acts {
+			acts[i].fkind = fk
+		}
+		p.acts = acts
 		p.u = u
 		wd.recs = nil
 		cur = p
@@ -717,7 +780,7 @@ func main() {
 					escaped, didEscape = x, true
 				}
 			}()
-			f.ServeHTTP(u, req)
+			f.ServeHTTP(u.as(fk), req)
 		}()
 		cur = nil
 		fu := followup(f)
@@ -842,6 +905,12 @@ func main() {
 		for _, acts := range [][]act{nil, {{header: true, code: 204}}, {{header: true, code: 200}, {body: "partial"}}, {{body: "partial"}}, {{header: true, code: 103}}} {
 			onePanic(1, requests[0], inHandler, acts, "enumerated", &curated[vi], genHeaders(rnd, st))
 		}
+		// response started ONLY by a flush, on each kind of underlying writer, for every panic value
+		for fk := 0; fk < 3; fk++ {
+			fkForce = fk
+			onePanic(vi%2, requests[vi%5], hx.Pick(rnd, []int{inHandler, inMWBefore}), []act{{flush: true}}, "flush-only", &curated[vi], genHeaders(rnd, st))
+		}
+		fkForce = -1
 	}
 	for i := 0; i < nrandom; i++ {
 		t := genTree(rnd, 3)
@@ -855,44 +924,79 @@ func main() {
 	}
 
 	// ================= transaction cases =================
+	// routes are (method, static pattern); the handler registered at step i answers "v<i>"
 	type op struct {
-		kind int // 0 handle 1 delete 2 lookup
-		r    string
+		kind    int // 0 handle 1 update 2 delete 3 truncate 4 lookup
+		method  string
+		pattern string
+		methods []string
 	}
-	opCoq := func(o op) string {
-		return []string{"OpHandle ", "OpDelete ", "OpLookup "}[o.kind] + cb(o.r)
+	key := func(m, p string) string { return m + " " + p }
+	opCoq := func(o op, ver int) string {
+		switch o.kind {
+		case 0:
+			return "OpHandle " + cb(key(o.method, o.pattern)) + " " + hx.N(uint64(ver))
+		case 1:
+			return "OpUpdate " + cb(key(o.method, o.pattern)) + " " + hx.N(uint64(ver))
+		case 2:
+			return "OpDelete " + cb(key(o.method, o.pattern))
+		case 3:
+			return "OpTruncate " + hx.ListOf(o.methods, cb)
+		}
+		return "OpLookup " + cb(key(o.method, o.pattern))
 	}
-	opHuman := func(o op) string { return []string{"Handle ", "Delete ", "Has "}[o.kind] + o.r }
+	opHuman := func(o op) string {
+		if o.kind == 3 {
+			return "Truncate(" + strings.Join(o.methods, ",") + ")"
+		}
+		return []string{"Handle ", "Update ", "Delete ", "", "Has "}[o.kind] + key(o.method, o.pattern)
+	}
+	versioned := func(v int) fox.HandlerFunc {
+		return func(c fox.Context) { _, _ = io.WriteString(c.Writer(), fmt.Sprintf("v%d", v)) }
+	}
 	txnPanicVals := []any{errors.New("txn boom"), "txn string", customPtrs[0], http.ErrAbortHandler}
 	errFn := errors.New("fn failed")
-	oneTxn := func(kind string, initial []string, ops []op, ending int, pid int) {
-		wd := &world{}
-		f := build(wd, false)
+	universe := [][2]string{{"GET", "/a"}, {"GET", "/b"}, {"POST", "/a"}, {"TRACE", "/a"}, {"PURGE", "/b"}, {"DELETE", "/b"}}
+	serveOne := func(f *fox.Router, m, p string) (int, string, bool) {
+		u := newUW()
+		panicked := false
+		func() {
+			defer func() {
+				if recover() != nil {
+					panicked = true
+				}
+			}()
+			req := &http.Request{Method: m, URL: &url.URL{Path: p}, Proto: "HTTP/1.1", ProtoMajor: 1, ProtoMinor: 1,
+				Header: http.Header{}, Host: "h", RemoteAddr: "192.0.2.9:1", RequestURI: p, Body: http.NoBody}
+			f.ServeHTTP(u, req.WithContext(context.Background()))
+		}()
+		return u.status, string(u.body), panicked
+	}
+	oneTxn := func(kind string, initial [][2]string, ops []op, ending int, pid int) {
+		f, err := fox.New()
+		hx.Fatal(err)
 		for _, r := range initial {
-			_, err := f.Handle("GET", r, noop)
+			_, err := f.Handle(r[0], r[1], versioned(0))
 			hx.Fatal(err)
 		}
-		listRoutes := func() []string {
-			var l []string
-			for m, r := range f.Iter().All() {
-				if m == "GET" && len(r.Pattern()) == 2 {
-					l = append(l, r.Pattern())
-				}
-			}
-			sort.Strings(l)
-			return l
-		}
-		fn := func(txn *fox.Txn) error {
-			for _, o := range ops {
+		apply := func(txn *fox.Txn) {
+			for i, o := range ops {
 				switch o.kind {
 				case 0:
-					_, _ = txn.Handle("GET", o.r, noop)
+					_, _ = txn.Handle(o.method, o.pattern, versioned(i+1))
 				case 1:
-					_, _ = txn.Delete("GET", o.r)
+					_, _ = txn.Update(o.method, o.pattern, versioned(i+1))
+				case 2:
+					_, _ = txn.Delete(o.method, o.pattern)
+				case 3:
+					_ = txn.Truncate(o.methods...)
 				default:
-					_ = txn.Has("GET", o.r)
+					_ = txn.Has(o.method, o.pattern)
 				}
 			}
+		}
+		fn := func(txn *fox.Txn) error {
+			apply(txn)
 			switch ending {
 			case 0:
 				panic(txnPanicVals[pid])
@@ -920,92 +1024,165 @@ func main() {
 				err = f.Updates(fn)
 			case "TView":
 				err = f.View(fn)
+			case "TManual":
+				txn := f.Txn(true)
+				defer txn.Abort()
+				apply(txn)
+				switch ending {
+				case 0:
+					panic(txnPanicVals[pid])
+				case 1:
+					txn.Abort() // explicit abort
+					err = errFn
+				default:
+					txn.Commit()
+				}
 			default:
 				o := ops[0]
 				if o.kind == 0 {
 					if ending == 0 {
-						_, err = f.Handle("GET", o.r, noop, fox.WithMiddleware(func(next fox.HandlerFunc) fox.HandlerFunc { panic(txnPanicVals[pid]) }))
+						_, err = f.Handle(o.method, o.pattern, versioned(1), fox.WithMiddleware(func(next fox.HandlerFunc) fox.HandlerFunc { panic(txnPanicVals[pid]) }))
 					} else {
-						_, err = f.Handle("GET", o.r, noop)
+						_, err = f.Handle(o.method, o.pattern, versioned(1))
 					}
 				} else {
-					_, err = f.Delete("GET", o.r)
+					_, err = f.Delete(o.method, o.pattern)
 				}
 			}
 			if err != nil {
 				outc = "TErr"
 			}
 		}()
-		routes := listRoutes()
-		fu := followup(f)
+		// three views of the live route set: Iter().All, Has over the universe, one request per universe route
+		viaAll := map[string]bool{}
+		for m, r := range f.Iter().All() {
+			viaAll[key(m, r.Pattern())] = true
+		}
+		agree := true
+		var routes []string
+		var routesH []string
+		for _, r := range universe {
+			k := key(r[0], r[1])
+			has := f.Has(r[0], r[1])
+			code, body, pan := serveOne(f, r[0], r[1])
+			served := !pan && code == 200 && strings.HasPrefix(body, "v")
+			if has != viaAll[k] || has != served {
+				agree = false
+			}
+			delete(viaAll, k)
+			if has || served {
+				ver := uint64(999)
+				if served {
+					fmt.Sscanf(body, "v%d", &ver)
+				}
+				routes = append(routes, "("+cb(k)+", "+hx.N(ver)+")")
+				routesH = append(routesH, fmt.Sprintf("%s=%s", k, body))
+			}
+		}
+		if len(viaAll) != 0 {
+			agree = false
+		}
+		code, _, pan := serveOne(f, "GET", "/never/registered")
+		fu := !pan && code == 404
 		wr := writeProbe(f)
 		end := []string{"EndPanic " + hx.N(uint64(pid)), "EndErr", "EndOk"}[ending]
-		sort.Strings(initial)
-		term := fmt.Sprintf("(CTxn %s %s %s (%s) (TO %s %s %s %s))", kind, hx.ListOf(initial, cb), hx.ListOf(ops, opCoq), end,
-			outc, hx.ListOf(routes, cb), hx.Bool(fu), hx.Bool(wr))
-		var oh []string
-		for _, o := range ops {
+		init := hx.ListOf(initial, func(r [2]string) string { return "(" + cb(key(r[0], r[1])) + ", " + hx.N(0) + ")" })
+		var ocs, oh []string
+		for i, o := range ops {
+			ocs = append(ocs, opCoq(o, i+1))
 			oh = append(oh, opHuman(o))
 		}
-		human := fmt.Sprintf("%s initial=%v fn=[%s] then %s => outcome=%s routes=%v followup-ok=%v write-ok=%v", kind, initial, strings.Join(oh, "; "),
-			[]string{fmt.Sprintf("panic(value#%d)", pid), "return error", "return nil"}[ending], outc, routes, fu, wr)
+		term := fmt.Sprintf("(CTxn %s %s %s (%s) (TO %s %s %s %s %s))", kind, init, hx.List(ocs), end,
+			outc, hx.List(routes), hx.Bool(agree), hx.Bool(fu), hx.Bool(wr))
+		var ih []string
+		for _, r := range initial {
+			ih = append(ih, key(r[0], r[1]))
+		}
+		human := fmt.Sprintf("%s initial=[%s] fn=[%s] then %s => outcome=%s live-routes=[%s] All/Has/requests-agree=%v followup-ok=%v write-ok=%v", kind, strings.Join(ih, ", "), strings.Join(oh, "; "),
+			[]string{fmt.Sprintf("panic(value#%d)", pid), "return error / Abort()", "return nil / Commit()"}[ending], outc, strings.Join(routesH, ", "), agree, fu, wr)
 		if emit(term, human, len(ops) > 0 || ending != 2) {
 			st.Count("txn:" + kind)
-			st.Count("txn-ending:" + []string{"panic", "error", "nil"}[ending])
+			st.Count("txn-ending:" + []string{"panic", "error-or-abort", "commit"}[ending])
 			st.Count(fmt.Sprintf("txn-steps-before-end:%d", len(ops)))
-			if len(st.Samples) < 12 && rnd.Pct(2) {
+			for _, o := range ops {
+				st.Count("txn-op:" + []string{"Handle", "Update", "Delete", "Truncate", "Has"}[o.kind])
+			}
+			if len(st.Samples) < 14 && rnd.Pct(2) {
 				st.Samples = append(st.Samples, human)
 			}
 		}
 	}
-	alphabet := []op{}
-	for k := 0; k < 3; k++ {
-		for _, r := range []string{"/a", "/b", "/c"} {
-			alphabet = append(alphabet, op{k, r})
+	// operation alphabet (sorted initial sets keep the universe order)
+	var alphabet []op
+	for _, r := range [][2]string{{"GET", "/a"}, {"GET", "/b"}, {"POST", "/a"}, {"TRACE", "/a"}, {"PURGE", "/b"}} {
+		alphabet = append(alphabet, op{kind: 0, method: r[0], pattern: r[1]}, op{kind: 1, method: r[0], pattern: r[1]}, op{kind: 2, method: r[0], pattern: r[1]})
+	}
+	alphabet = append(alphabet, op{kind: 4, method: "GET", pattern: "/a"})
+	for _, ms := range [][]string{{}, {"GET"}, {"POST"}, {"TRACE"}, {"PURGE"}, {"GET", "TRACE"}, {"TRACE", "GET"}, {"GET", "POST"},
+		{"PURGE", "GET"}, {"GET", "PURGE", "POST"}, {"DELETE", "TRACE", "PURGE"}, {"HEAD"}} {
+		alphabet = append(alphabet, op{kind: 3, methods: ms})
+	}
+	initials := [][][2]string{
+		{},
+		{{"GET", "/a"}, {"GET", "/b"}, {"POST", "/a"}, {"TRACE", "/a"}},
+		{{"GET", "/a"}, {"POST", "/a"}, {"TRACE", "/a"}, {"PURGE", "/b"}, {"DELETE", "/b"}},
+	}
+	wkinds := []string{"TUpdates", "TManual"}
+	// length 0 and 1: every operation x every ending x both write kinds x every initial set; View too
+	for _, in := range initials {
+		for ending := 0; ending < 3; ending++ {
+			for _, k := range []string{"TUpdates", "TManual", "TView"} {
+				oneTxn(k, in, nil, ending, rnd.Intn(len(txnPanicVals)))
+			}
 		}
 	}
-	maxLen := 2
-	if tier == "thorough" {
-		maxLen = 3
-	}
-	initials := [][]string{{}, {"/a"}, {"/a", "/b"}}
-	var rec func(prefix []op)
-	rec = func(prefix []op) {
-		for _, kind := range []string{"TUpdates", "TView"} {
+	for _, o := range alphabet {
+		for _, in := range initials[1:] {
 			for ending := 0; ending < 3; ending++ {
-				init := initials[rnd.Intn(3)]
-				if len(prefix) <= 1 {
-					for _, in := range initials {
-						oneTxn(kind, append([]string{}, in...), prefix, ending, rnd.Intn(len(txnPanicVals)))
-					}
-				} else {
-					oneTxn(kind, append([]string{}, init...), prefix, ending, rnd.Intn(len(txnPanicVals)))
+				for _, k := range wkinds {
+					oneTxn(k, in, []op{o}, ending, rnd.Intn(len(txnPanicVals)))
 				}
 			}
 		}
-		if len(prefix) == maxLen {
-			return
-		}
-		for _, o := range alphabet {
-			rec(append(append([]op{}, prefix...), o))
+		oneTxn("TView", initials[1], []op{o}, rnd.Intn(3), rnd.Intn(len(txnPanicVals)))
+		oneTxn("TUpdates", initials[0], []op{o}, rnd.Intn(3), rnd.Intn(len(txnPanicVals)))
+	}
+	// length 2: every ordered pair; quick: one seeded (kind, ending, initial) each, biased to non-commit endings
+	for _, o1 := range alphabet {
+		for _, o2 := range alphabet {
+			if tier == "thorough" {
+				for _, in := range initials[1:] {
+					for ending := 0; ending < 3; ending++ {
+						oneTxn(hx.Pick(rnd, wkinds), in, []op{o1, o2}, ending, rnd.Intn(len(txnPanicVals)))
+					}
+				}
+			} else {
+				if o1.kind != 3 && o2.kind != 3 && rnd.Pct(50) {
+					continue
+				}
+				oneTxn(hx.Pick(rnd, wkinds), initials[1+rnd.Intn(2)], []op{o1, o2}, hx.Pick(rnd, []int{0, 0, 1, 2}), rnd.Intn(len(txnPanicVals)))
+			}
 		}
 	}
-	rec(nil)
-	for i := 0; i < 60; i++ { // longer random transaction functions
+	nlong := 80
+	if tier == "thorough" {
+		nlong = 4000
+	}
+	for i := 0; i < nlong; i++ { // longer random transaction functions
 		n := rnd.Range(3, 6)
 		var ops []op
 		for j := 0; j < n; j++ {
 			ops = append(ops, hx.Pick(rnd, alphabet))
 		}
-		oneTxn(hx.Pick(rnd, []string{"TUpdates", "TView"}), append([]string{}, initials[rnd.Intn(3)]...), ops, rnd.Intn(3), rnd.Intn(len(txnPanicVals)))
+		oneTxn(hx.Pick(rnd, []string{"TUpdates", "TManual", "TUpdates", "TView"}), initials[rnd.Intn(3)], ops, rnd.Intn(3), rnd.Intn(len(txnPanicVals)))
 	}
 	for _, in := range initials { // write helpers
-		for _, r := range []string{"/a", "/c"} {
+		for _, r := range [][2]string{{"GET", "/a"}, {"PURGE", "/b"}, {"GET", "/b"}} {
 			for pid := range txnPanicVals {
-				oneTxn("THelper", append([]string{}, in...), []op{{0, r}}, 0, pid)
+				oneTxn("THelper", in, []op{{kind: 0, method: r[0], pattern: r[1]}}, 0, pid)
 			}
-			oneTxn("THelper", append([]string{}, in...), []op{{0, r}}, 2, 0)
-			oneTxn("THelper", append([]string{}, in...), []op{{1, r}}, 2, 0)
+			oneTxn("THelper", in, []op{{kind: 0, method: r[0], pattern: r[1]}}, 2, 0)
+			oneTxn("THelper", in, []op{{kind: 2, method: r[0], pattern: r[1]}}, 2, 0)
 		}
 	}
 
@@ -1024,7 +1201,7 @@ func main() {
 	st.Evaluations = cs.Len()
 	st.DistinctNontrivial = nontrivial
 	st.Exhaustive = false
-	st.Extra = map[string]any{"curated_panic_values": len(curated), "txn_max_enumerated_len": maxLen}
+	st.Extra = map[string]any{"curated_panic_values": len(curated), "txn_operation_alphabet": len(alphabet)}
 	hx.Fatal(cs.Write(out, shards))
 	hx.Fatal(st.Write(out))
 	fmt.Printf("c15: %d cases written to %s\n", cs.Len(), out)
